@@ -408,7 +408,7 @@ PROPS = {
     "C04": dict(mc=[ECON_MC], sim=[ECON_SIM, ECON2_SIM, GOV_SIM], static=["econ*.ndjson", "gov*.ndjson"],
                 watch=["C04:", "conf:pool", "conf:bat", "conf:st", "conf:cnt"],
                 need={"Send/ok": 5, "Cancel/ok": 1, "ReqBatch/ok": 1, "End/ok": 3}),
-    "C10": dict(mc=[ECON_MC], sim=[ECON_SIM], static=["econ*.ndjson"], bulk=["bulk_batch*.ndjson"],
+    "C10": dict(mc=[ECON_MC], sim=[ECON_SIM], static=["econ*.ndjson"], bulk=["bulk_batch*.ndjson"], restart=["cnt.bn", "cnt.seq"],
                 watch=["C10:", "conf:bat", "conf:cnt"],
                 need={"Send/ok": 5, "ReqBatch/ok": 1, "Begin/ok": 3}),
     "C12": dict(mc=[ECON_MC], sim=[ECON_SIM, GOV_SIM], static=["econ*.ndjson", "gov*.ndjson"],
@@ -525,6 +525,43 @@ def hub_run(prop, plan, tier, seed, replay_file, workdir):
             raise Infra("vacuous bulk run: no full batch / no pool above the batch size")
         rep["viol"] = list(rep["viol"]) + list(brep["viol"])
         scripts = scripts + bs
+
+    # restart pass: a genesis export / import at a block boundary must not disturb the listed components (counters): the
+    # behaviour continues on the original and on the restarted application and both are compared by TLC (Genesis.tla).
+    # Exports that lose components of the recorded finding C15-export-omits-state are not judged after the loss.
+    if plan.get("restart"):
+        rs = [sc for sc in scripts if sc.get("family") == "econ"][:16]
+        rsp = os.path.join(workdir, "restart.scripts.ndjson")
+        with open(rsp, "w") as f:
+            for sc in rs:
+                f.write(json.dumps(sc) + "\n")
+        rout = os.path.join(workdir, "restart.ndjson")
+        p, rrt = run([vh, "genesis", "-scripts", rsp, "-out", rout, "-pick", str(seed)], 3000)
+        if p.returncode != 0:
+            sys.stdout.write(p.stdout.decode(errors="replace")[-2000:])
+            raise Infra("harness genesis (restart pass) failed")
+        grep = validate(rout, workdir, dev, name="restart", module="Genesis.tla", cfgname="Genesis.cfg")
+        gst = grep["stat"]
+        known_lost = set()
+        for k in known_findings()["findings"]:
+            if k["property"] == "C15" and k["status"] == "known":
+                known_lost |= {c[1] for c in k["checks"] if c[0] == "C15:Lost"}
+        lost = collections.defaultdict(set)
+        for v in grep["viol"]:
+            if v[3] == "C15:Lost":
+                lost[(v[0], v[1])].add(v[4].split(":")[0])
+        rv = []
+        for v in grep["viol"]:
+            comp = v[4].split(":")[0]
+            if comp not in plan["restart"]:
+                continue
+            if v[3] == "C15:ContinuationDiverged" and lost[(v[0], v[1])]:
+                continue          # after a lossy export the two applications legitimately differ (recorded under C15)
+            rv.append((v[0], v[1], prop + ":RestartKeeps", v[4]))
+        log("[%s] restart pass: %d export/import round trips, %d continuation steps compared for %s" % (prop, gst["roundtrips"], gst["conts"], plan["restart"]))
+        if gst["roundtrips"] < 5 and not replay_file:
+            raise Infra("vacuous restart pass")
+        rep["viol"] = list(rep["viol"]) + rv
 
     # anti-vacuity
     cov = rep["cov"]
